@@ -185,7 +185,7 @@ CHECK_DEADLOCK FALSE
 """
 
 
-def validate_traces(module, claim, traces, *, shard=400, timeout=1800, jobs=None, extra_constants=""):
+def validate_traces(module, claim, traces, *, shard=400, timeout=1800, jobs=None, extra_constants="", batch_extra=None):
     """Ship traces (list of {"id":..., "events":[...]}) to TLC in shards; return {id: verdict-record}.
 
     verdict-record = {"verdict": "ok" | "<clause>@<event>", "drift": int, "live": [clauses with true antecedent]}
@@ -200,7 +200,7 @@ def validate_traces(module, claim, traces, *, shard=400, timeout=1800, jobs=None
         def one(k):
             path = os.path.join(work, "batch%d.json" % k)
             with open(path, "w") as f:
-                json.dump({"traces": shards[k]}, f)
+                json.dump(dict(batch_extra or {}, traces=shards[k]), f)
             r = run_tlc(module, TRACE_CFG % claim + extra_constants, workers=1, timeout=timeout,
                         extra_env={"TRACE_FILE": path})
             os.unlink(path)
